@@ -67,6 +67,12 @@ pub fn worker_main(args: &[String]) -> i32 {
         writeln!(w, "S {r}").unwrap();
         w.flush().unwrap();
         let case = cases::gen(prop, seed, tier, r);
+        // harness self-test only: pretend run QSIM_TEST_STALL_AT never finishes (exercises the watchdog)
+        if std::env::var("QSIM_TEST_STALL_AT").ok().and_then(|s| s.parse::<u64>().ok()) == Some(r) {
+            loop {
+                std::thread::sleep(std::time::Duration::from_secs(1));
+            }
+        }
         let out = cases::exec(&case);
         for (k, v) in &out.counters {
             *counters.entry(k.clone()).or_insert(0) += v;
@@ -110,6 +116,11 @@ pub fn one_main(args: &[String]) -> i32 {
     let case = cases::gen(prop, seed, tier, r);
     println!("CASE {}", serde_json::to_string(&case).unwrap());
     std::io::stdout().flush().unwrap();
+    if std::env::var("QSIM_TEST_STALL_AT").ok().and_then(|s| s.parse::<u64>().ok()) == Some(r) {
+        loop {
+            std::thread::sleep(std::time::Duration::from_secs(1));
+        }
+    }
     let out = cases::exec(&case);
     println!("E {r} {}", out.digest);
     for v in &out.viols {
@@ -260,6 +271,67 @@ pub fn exec_case_main(path: &str) -> i32 {
 
 // ------------------------------------------------------------------------------------------------ supervisor
 
+/// Upper bound on the wall-clock time of a single run before it counts as stalled.
+fn run_timeout_s(tier: Tier) -> u64 {
+    std::env::var("QSIM_RUN_TIMEOUT_S")
+        .ok()
+        .and_then(|s| s.parse().ok())
+        .unwrap_or(match tier {
+            Tier::Quick => 300,
+            Tier::Thorough => 3600,
+        })
+}
+
+struct Watchdog {
+    last: std::sync::Arc<std::sync::atomic::AtomicU64>,
+    done: std::sync::Arc<std::sync::atomic::AtomicBool>,
+    fired: std::sync::Arc<std::sync::atomic::AtomicBool>,
+    t0: Instant,
+    handle: Option<std::thread::JoinHandle<()>>,
+}
+
+impl Watchdog {
+    fn start(pid: u32, limit_s: u64) -> Watchdog {
+        use std::sync::atomic::{AtomicBool, AtomicU64, Ordering};
+        use std::sync::Arc;
+        let last = Arc::new(AtomicU64::new(0));
+        let done = Arc::new(AtomicBool::new(false));
+        let fired = Arc::new(AtomicBool::new(false));
+        let t0 = Instant::now();
+        let (l, d, f) = (last.clone(), done.clone(), fired.clone());
+        let handle = std::thread::spawn(move || loop {
+            std::thread::sleep(std::time::Duration::from_millis(500));
+            if d.load(Ordering::SeqCst) {
+                break;
+            }
+            let now = t0.elapsed().as_secs();
+            if now.saturating_sub(l.load(Ordering::SeqCst)) > limit_s {
+                f.store(true, Ordering::SeqCst);
+                let _ = Command::new("kill").args(["-9", &pid.to_string()]).status();
+                break;
+            }
+        });
+        Watchdog {
+            last,
+            done,
+            fired,
+            t0,
+            handle: Some(handle),
+        }
+    }
+    fn touch(&self) {
+        self.last.store(self.t0.elapsed().as_secs(), std::sync::atomic::Ordering::SeqCst);
+    }
+    /// Stops the watchdog; true if it had to kill the process.
+    fn finish(mut self) -> bool {
+        self.done.store(true, std::sync::atomic::Ordering::SeqCst);
+        if let Some(h) = self.handle.take() {
+            let _ = h.join();
+        }
+        self.fired.load(std::sync::atomic::Ordering::SeqCst)
+    }
+}
+
 struct WorkerResult {
     digests: BTreeMap<u64, u64>,
     viols: Vec<ViolLine>,
@@ -307,12 +379,17 @@ fn run_worker(
     };
     let mut current: Option<u64> = None;
     let reader = BufReader::new(child.stdout.take().unwrap());
+    // bounded progress: a run that does not finish within the limit is killed and charged to its index
+    let watch = Watchdog::start(child.id(), run_timeout_s(tier));
     for line in reader.lines() {
         let Ok(line) = line else { break };
         let (tag, rest) = line.split_at(line.find(' ').unwrap_or(line.len()));
         let rest = rest.trim_start();
         match tag {
-            "S" => current = rest.parse().ok(),
+            "S" => {
+                current = rest.parse().ok();
+                watch.touch();
+            }
             "E" => {
                 let mut it = rest.split(' ');
                 let r: u64 = it.next().unwrap().parse().unwrap();
@@ -339,11 +416,16 @@ fn run_worker(
         }
     }
     let status = child.wait().expect("wait worker");
+    let stalled = watch.finish();
     if !res.done {
         use std::os::unix::process::ExitStatusExt;
-        let desc = match status.signal() {
-            Some(s) => format!("signal_{s}"),
-            None => format!("exit_{}", status.code().unwrap_or(-1)),
+        let desc = if stalled {
+            "stalled".to_string()
+        } else {
+            match status.signal() {
+                Some(s) => format!("signal_{s}"),
+                None => format!("exit_{}", status.code().unwrap_or(-1)),
+            }
         };
         res.died_at = Some((current.unwrap_or(start), desc));
     }
@@ -437,10 +519,15 @@ pub fn run_batch(exe: &Path, prop: &str, tier: Tier, seed: u64, total: u64, work
     }
     // a death is confirmed by re-executing that run alone in a fresh process
     for (r, desc) in deaths {
-        let out = Command::new(&exe)
+        let child = Command::new(&exe)
             .args(["one", prop, tier.name(), &seed.to_string(), &r.to_string()])
-            .output()
+            .stdout(Stdio::piped())
+            .stderr(Stdio::piped())
+            .spawn()
             .expect("spawn one");
+        let watch = Watchdog::start(child.id(), run_timeout_s(tier));
+        let out = child.wait_with_output().expect("wait one");
+        let stalled_again = watch.finish();
         let text = String::from_utf8_lossy(&out.stdout);
         let errtext = String::from_utf8_lossy(&out.stderr);
         if let Some(l) = errtext.lines().find(|l| l.starts_with("HARNESS-PANIC")) {
@@ -480,9 +567,13 @@ pub fn run_batch(exe: &Path, prop: &str, tier: Tier, seed: u64, total: u64, work
             continue;
         }
         use std::os::unix::process::ExitStatusExt;
-        let desc2 = match out.status.signal() {
-            Some(s) => format!("signal_{s}"),
-            None => format!("exit_{}", out.status.code().unwrap_or(-1)),
+        let desc2 = if stalled_again {
+            format!("stalled_no_progress_within_{}s", run_timeout_s(tier))
+        } else {
+            match out.status.signal() {
+                Some(s) => format!("signal_{s}"),
+                None => format!("exit_{}", out.status.code().unwrap_or(-1)),
+            }
         };
         match case_line.and_then(|l| serde_json::from_str::<Case>(&l[5..]).ok()) {
             Some(case) => {
